@@ -7,7 +7,8 @@
     http_proxy.go    upstreamProxyURL (URL userinfo wins, else table), pacProxy (table entry attached),
                      setBasicAuth (site credential unless the client sent Authorization)
   and composes configuration → `Req.Cfg` for one request (`resolve`), so that the request pipeline
-  (`Req.processRequest`, `Req.processConnect`) yields the header set every hop receives.
+  (`Req.processRequest`, `Req.processConnect`) yields the header set every hop receives; and one
+  instance with a PAC script over a sequence of requests (`pacCredSeq`; counter-model `pacLookupMemo`).
   Core-only.
 -/
 import FwdVerif.Model.C05
@@ -162,6 +163,44 @@ def processConnect (fc : FullCfg) (ctx : Req.Ctx) (c : Req.ConnectReq) : Req.Con
 
 def connectActions (fc : FullCfg) (ctx : Req.Ctx) (c : Req.ConnectReq) : List Req.Action :=
   Req.connectActions (resolve fc [] c.authority) ctx c
+
+/-! ### one proxy instance with a PAC script serving a sequence of requests
+
+`pacProxy` evaluates the script for every request, takes the first entry of the answer and then asks
+the credentials table about *that* proxy URL (`hp.creds.MatchURL(proxyURL)`): the table is built
+once and only read afterwards, nothing about an earlier lookup is kept.  The only thing that changes
+between two requests is the resolver pool (`C05.InstState`). -/
+
+/-- the lookup `pacProxy` makes for the proxy the script selected -/
+def pacLookup (t : Option CredTable) (u : ProxyURL) : Option Cred := matchURL t u.scheme u.host
+
+/-- `HTTPProxy.pacProxy` on the script's answer for one request: the selection with the table
+    entry attached -/
+def pacSelect (t : Option CredTable) (r : C05.PacResult) : Except RouteError (Option ProxyURL) :=
+  match C05.pacAnswer r with
+  | .ok (some u) => .ok (some (pacAttach t u))
+  | x => x
+
+/-- one request of the instance: a resolver is taken from the pool and put back, the table is read -/
+def pacCredStep (t : Option CredTable) (st : C05.InstState) (r : C05.PacResult) :
+    C05.InstState × Except RouteError (Option ProxyURL) :=
+  (st.evaluate, pacSelect t r)
+
+/-- the proxy URLs (with credentials) one instance hands to the transport / the CONNECT dialler for
+    a list of requests, given the script's answer for each, in order -/
+def pacCredSeq (t : Option CredTable) : C05.InstState → List C05.PacResult → List (Except RouteError (Option ProxyURL))
+  | _, [] => []
+  | st, r :: rs => (pacCredStep t st r).2 :: pacCredSeq t (pacCredStep t st r).1 rs
+
+/-- the counter-model: an instance that remembers the table's answer per selected proxy under a key
+    (every answer is kept, "no entry" as well) -/
+def pacLookupMemo {κ : Type} [DecidableEq κ] (key : ProxyURL → κ) (t : Option CredTable) (us : List ProxyURL) :
+    List (Option Cred) :=
+  C05.memoRun key (fun _ => true) (pacLookup t) [] us
+
+/-- what the selected HTTP(S) proxy is sent as Proxy-Authorization when the lookup answered `c` -/
+def proxyAuthFor (u : ProxyURL) (c : Option Cred) : Option Bytes :=
+  C05.authValue (match c with | some c => { u with user := some c } | none => u)
 
 end C06
 end FwdVerif
